@@ -94,6 +94,7 @@ def shards(tier):
     for bl in range(len(BASELINES)):
         for po in range(len(POLYGONS)):
             out.append({'kind': 'C', 'bl': bl, 'poly': po})
+    out.append({'kind': 'many'})
     return out
 
 
@@ -122,6 +123,22 @@ def run_shard(shard, ctx, tier):
                 for ver in (0, 1):
                     for via in ('string', 'file'):
                         guarded_check(mod, {'pid': 0, 'regions': regs, 'ro': ro, 'ver': ver, 'via': via}, ctx)
+    elif shard['kind'] == 'many':
+        # more regions / lines than single digits can number: 12 regions (the first with 12 lines), reading orders that move r10..r12
+        n = 12
+        ids = [f'r{i + 1}' for i in range(n)]
+        regs = [default_region(12 if i == 0 else 1) for i in range(n)]
+        orders = [None,
+                  [[rid, i] for i, rid in enumerate(reversed(ids))],
+                  [[rid, i] for i, rid in enumerate(ids[1:] + ids[:1])],
+                  [[rid, i] for i, rid in enumerate(ids[9:] + ids[:9])],
+                  [['r12', 0]],
+                  [[rid, 10 * i] for i, rid in enumerate(ids[::2] + ids[1::2])],
+                  [[rid, i] for i, rid in enumerate(ids)]]
+        for ro in orders:
+            for ver in (0, 1):
+                for via in ('string', 'file'):
+                    guarded_check(mod, {'pid': 0, 'regions': regs, 'ro': ro, 'ver': ver, 'via': via}, ctx)
     elif shard['kind'] == 'B':
         sl = slots_2x2()
         d, first = shard['dev'], shard['first']
@@ -270,6 +287,8 @@ def check_case(case, ctx):
     page = build(case)
     want = expected(case)
     ctx.state((case['pid'], str(case['regions']), str(case['ro']), case.get('cont', 0)))
+    if len(case['regions']) > 9:
+        ctx.tag('more-than-nine-regions-and-lines')
     if case.get('cont'):
         ctx.tag('other-point-containers')
     K = f'{ID}'
@@ -383,5 +402,5 @@ def describe(tier):
                       'confidences': [str(c) for c in CONFS], 'indexes': [str(i) for i in INDEXES], 'region_types': [str(t) for t in RTYPES],
                       'region_texts': [repr(t) for t in RTEXTS], 'page_ids': PIDS},
         'assumptions': ['a reading order of None and an empty one are equivalent', 'conf is only stored together with a transcription'],
-        'min_nontrivial': 100, 'required_tags': ['other-point-containers', 'reading-order-permutes', 'two-or-more-non-default-fields'],
+        'min_nontrivial': 100, 'required_tags': ['more-than-nine-regions-and-lines', 'other-point-containers', 'reading-order-permutes', 'two-or-more-non-default-fields'],
     }
